@@ -98,3 +98,227 @@ META = dict(
     assumptions=['doubles as exact reals + NaN flag'],
     stubs=[],
 )
+
+
+# ------------------------------------------------------------------------------------------------ engine B parts (ppos, lhs, box-plot levels)
+import numpy as _np
+import z3 as _z3
+from engine.pysym import core as _core
+from engine.pysym.core import SR as _SR, assume as _assume
+from engine.pysym.runner import Case as _Case, close as _close, is_nan as _is_nan, run_cases as _run_cases
+from engine.llir.xr import rv as _q
+
+
+def _conj(cs):
+    r = True
+    for c in cs:
+        if isinstance(c, (bool, _np.bool_)):
+            if not c:
+                return False
+            continue
+        r = c if r is True else (r & c)
+    return r
+
+
+class Ppos(_Case):
+    prop = 'C20'
+
+    def __init__(self, n):
+        self.n = n
+        self.name = 'ppos:n%d' % n
+        self.params = dict(n=n)
+        self.functions = ['hydrodiy.stat.sutils.ppos']
+
+    def modules(self):
+        from hydrodiy.stat import sutils
+        return [sutils]
+
+    def inputs(self):
+        c = _SR(_z3.Real('cst'))
+        _assume(_z3.And(c.e >= -1, c.e <= 2))
+        return dict(cst=c)
+
+    def run(self, I):
+        from hydrodiy.stat import sutils
+        try:
+            p = sutils.ppos(self.n, I['cst'])
+        except ValueError:
+            return dict(raised=True, p=None)
+        return dict(raised=False, p=list(_np.asarray(p, dtype=object).flat))
+
+    def spec(self, I, O, err):
+        res = [('no-unexpected-exception', err is None)]
+        if err is not None:
+            return res
+        c = I['cst']
+        valid = (c >= 0) & (c <= 0.5) if isinstance(c, _SR) else (0 <= c <= 0.5)
+        if O['raised']:
+            return res + [('only-invalid-constants-rejected', ~valid if not isinstance(valid, (bool, _np.bool_)) else (not valid))]
+        p, n = O['p'], self.n
+        res.append(('valid-constant-accepted', valid))
+        res.append(('length', len(p) == n))
+        res.append(('in-(0,1)', _conj([(v > 0) & (v < 1) if isinstance(v, _SR) else 0 < v < 1 for v in p])))
+        res.append(('strictly-increasing', _conj([p[i] < p[i + 1] for i in range(n - 1)])))
+        res.append(('symmetric-about-0.5', _conj([_close(p[i] + p[n - 1 - i], 1.0, 1e-12) for i in range(n)])))
+        return res
+
+
+class Lhs(_Case):
+    prop = 'C20'
+    time_budget = {'quick': 90, 'thorough': 400}
+
+    def __init__(self, nsamples, nparams):
+        self.ns, self.np_ = nsamples, nparams
+        self.name = 'lhs:n%d:p%d' % (nsamples, nparams)
+        self.params = dict(nsamples=nsamples, nparams=nparams)
+        self.functions = ['hydrodiy.stat.sutils.lhs']
+
+    def modules(self):
+        from hydrodiy.stat import sutils
+        return [sutils]
+
+    def inputs(self):
+        lo, hi = [], []
+        for i in range(self.np_):
+            a, w = _SR(_z3.Real('pmin%d' % i)), _SR(_z3.Real('width%d' % i))
+            _assume(_z3.And(a.e >= -1000, a.e <= 1000, w.e >= _q(0.001), w.e <= 1000))
+            lo.append(a)
+            hi.append(a + w)
+        return dict(pmin=lo, pmax=hi)
+
+    def run(self, I):
+        from hydrodiy.stat import sutils
+        sym = any(isinstance(v, _SR) for v in I['pmin'])
+        mk = _core.symarray if sym else (lambda xs: _np.array(xs, dtype=float))
+        s = sutils.lhs(self.ns, mk(I['pmin']), mk(I['pmax']))
+        return dict(samples=[[s[k, i] for k in range(self.ns)] for i in range(self.np_)])
+
+    def spec(self, I, O, err):
+        res = [('no-exception', err is None)]
+        if err is not None:
+            return res
+        n = self.ns
+        for i in range(self.np_):
+            lo, hi = I['pmin'][i], I['pmax'][i]
+            w = (hi - lo) / n
+            col = O['samples'][i]
+            for k in range(n):
+                a, b = lo + w * k, lo + w * (k + 1)
+                tol = 1e-9 * max(1.0, abs(a), abs(b)) if not isinstance(a, _SR) else 0
+                inside = [((v >= a - tol) & (v <= b + tol)) if isinstance(v, _SR) else (a - tol <= v <= b + tol) for v in col]
+                # exactly one point in stratum k (points on a shared edge are attributed by the strict side below)
+                strict = [((v > a) & (v < b)) if isinstance(v, _SR) else (a < v < b) for v in col]
+                cnt_in = sum([(_z3.If(c.e, 1, 0) if hasattr(c, 'e') else int(bool(c))) for c in inside])
+                cnt_strict = sum([(_z3.If(c.e, 1, 0) if hasattr(c, 'e') else int(bool(c))) for c in strict])
+                res.append(('one-point-per-stratum[p%d,s%d]' % (i, k), _core.sb(_z3.And(cnt_in >= 1, cnt_strict <= 1)) if _z3.is_expr(cnt_in) or _z3.is_expr(cnt_strict)
+                            else (cnt_in >= 1 and cnt_strict <= 1)))
+            res.append(('within-range[p%d]' % i, _conj([((v >= lo) & (v <= hi)) if isinstance(v, _SR) else (lo - 1e-9 <= v <= hi + 1e-9) for v in col])))
+        return res
+
+
+class BoxStats(_Case):
+    """boxplot_stats: statistics of the finite values only, at percentile levels ordered whisker-low <= box-low <= 50 <= box-high <= whisker-high"""
+    prop = 'C20'
+
+    def __init__(self, n, special, box=50.0, whis=90.0):
+        self.n, self.special, self.box, self.whis = n, dict(special), box, whis
+        self.name = 'boxplot_stats:n%d:%s:%g/%g' % (n, ','.join('%s@%d' % (v, k) for k, v in sorted(self.special.items())) or 'finite', box, whis)
+        self.params = dict(n=n, special=self.special, box=box, whis=whis)
+        self.functions = ['hydrodiy.plot.boxplot.boxplot_stats', 'hydrodiy.plot.boxplot.compute_percentiles']
+
+    def modules(self):
+        from hydrodiy.plot import boxplot
+        return [boxplot]
+
+    def inputs(self):
+        xs = []
+        for i in range(self.n):
+            v = _SR(_z3.Real('d%d' % i))
+            _assume(_z3.And(v.e >= -1000, v.e <= 1000))
+            xs.append(v)
+        return dict(x=xs)
+
+    def data(self, I):
+        vals = list(I['x'])
+        for k, v in self.special.items():
+            vals[int(k)] = {'nan': _np.nan, 'inf': _np.inf, '-inf': -_np.inf}[v]
+        return vals
+
+    def run(self, I):
+        from hydrodiy.plot import boxplot
+        vals = self.data(I)
+        sym = any(isinstance(v, _SR) for v in vals)
+        calls = []
+        old = boxplot.np.nanpercentile if not sym else None
+        if sym:
+            def npct(a, q, *aa, **kk):
+                calls.append((list(_np.asarray(a, dtype=object).flat), list(q)))
+                return _np.array([0.0] * len(q))
+            _core.NPX.nanpercentile = npct
+        else:
+            import numpy as real_np
+            orig = real_np.nanpercentile
+
+            def npct(a, q, *aa, **kk):
+                calls.append((list(_np.asarray(a, dtype=float).flat), list(q)))
+                return orig(a, q, *aa, **kk)
+            boxplot.np.nanpercentile = npct
+        try:
+            arr = _core.symarray(vals) if sym else _np.array(vals, dtype=float)
+            st = boxplot.boxplot_stats(arr, self.box, self.whis)
+        finally:
+            if sym:
+                del _core.NPX.nanpercentile
+            else:
+                boxplot.np.nanpercentile = orig
+        return dict(count=st['count'], mean=st.get('mean'), min=st.get('min'), max=st.get('max'), calls=calls)
+
+    def spec(self, I, O, err):
+        res = [('no-exception', err is None)]
+        if err is not None:
+            return res
+        vals = self.data(I)
+        fin = [v for v in vals if isinstance(v, _SR) or (_np.isfinite(v))]
+        res.append(('count=number-of-finite-values', int(O['count']) == len(fin)))
+        if len(fin) <= 3:
+            return res + [('no-percentiles-below-4-values', len(O['calls']) == 0)]
+        res.append(('percentiles-requested-once', len(O['calls']) == 1))
+        if O['calls']:
+            a, q = O['calls'][0]
+            ok = len(a) == len(fin)
+            if ok:
+                ok = _conj([_close(x, y, 0.0 if isinstance(x, _SR) or isinstance(y, _SR) else 1e-12) for x, y in zip(a, fin)])
+            res.append(('percentiles-of-the-finite-values-only', ok))
+            res.append(('levels-ordered-around-the-median', len(q) == 5 and q[0] <= q[1] <= 50 <= q[3] <= q[4] and q[2] == 50 and
+                        abs(q[1] - (100 - self.box) / 2) < 1e-9 and abs(q[0] - (100 - self.whis) / 2) < 1e-9 and abs(q[1] + q[3] - 100) < 1e-9 and
+                        abs(q[0] + q[4] - 100) < 1e-9))
+        tot = fin[0]
+        for v in fin[1:]:
+            tot = tot + v
+        res.append(('mean-of-finite-values', _close(O['mean'] * len(fin), tot, 1e-9)))
+        res.append(('min-max-of-finite-values', _conj([(O['min'] <= v) & (O['max'] >= v) if isinstance(v, _SR) or isinstance(O['min'], _SR) else (O['min'] <= v <= O['max']) for v in fin])))
+        return res
+
+
+def cases(tier):
+    out = [Ppos(n) for n in ((1, 2, 3, 6) if tier == 'quick' else (1, 2, 3, 4, 6, 9, 12))]
+    out += [Lhs(2, 1), Lhs(3, 1), Lhs(2, 2), Lhs(3, 2)] + ([Lhs(4, 1), Lhs(4, 2)] if tier == 'thorough' else [])
+    out += [BoxStats(5, {}), BoxStats(5, {0: 'nan'}), BoxStats(5, {2: 'inf'}), BoxStats(6, {1: '-inf', 4: 'nan'}), BoxStats(4, {3: 'inf'}),
+            BoxStats(5, {}, box=40.0, whis=99.0)]
+    return out
+
+
+def part_python(tier, seed, workdir):
+    return _run_cases('C20', cases(tier), tier, seed)
+
+
+PARTS = [part_python]
+META['explanation'] += ('; engine B: the real sutils.ppos (symbolic plotting constant), sutils.lhs (symbolic ranges, every permutation explored, jitter an arbitrary '
+                        'value of its range) and boxplot.boxplot_stats (symbolic values with NaN / +-inf at chosen positions, numpy.nanpercentile replaced by a '
+                        'recording stub) are executed on symbolic scalars and z3 decides: plotting positions strictly increasing in (0,1) and symmetric, one '
+                        'sample per stratum of every parameter, statistics computed from the finite values only at ordered levels')
+META['bounds'] += ['ppos: n in {1,2,3,6} (thorough up to 12), constant symbolic in [-1,2] (rejection outside [0,0.5])', 'lhs: 2-3 samples x 1-2 parameters '
+                   '(thorough 4), ranges symbolic with width in [1e-3,1e3]', 'boxplot_stats: 4-6 values, listed NaN/inf positions, coverages 50/90 and 40/99']
+META['outside'] = ['standard_normal (pandas rank, norm.ppf)', 'the percentile values themselves (numpy.nanpercentile is a stub whose arguments are checked)',
+                   'Boxplot(...).stats group-by / pivot (pandas)', 'Violin (KDE)']
+META['stubs'] = ['np.random.permutation: all permutations by forking', 'np.random.uniform: arbitrary value in range', 'np.nanpercentile: recording stub']
